@@ -143,9 +143,11 @@ SIZE, OFFSET, WHENCE = ("sym", "chunk-size"), ("sym", "seek-offset"), ("sym", "s
 UTF8 = ("sym", "UTF8_TEXT")
 
 
-def _stream_oracle(chunks, name="stream"):
-    """stream.read() hands out the given chunks in turn, then b'' for ever."""
+def _stream_oracle(chunks, name="stream", position=None):
+    """stream.read() hands out the given chunks in turn, then b'' for ever; tell() reports ``position``."""
     def oracle(n, pos, kw, st):
+        if n == f"{name}.tell" and position is not None:
+            return [("val", position)]
         if n == f"{name}.read":
             k = sum(1 for e in st.get("ev.calls", ()) if e[0] == f"{name}.read")
             return [("val", chunks[k] if k < len(chunks) else EMPTY_B)]
@@ -193,6 +195,21 @@ def check_iter_chunks_scenarios(ctx):
                     problems.add("the seek happens after data was read")
     ctx.check("R-CHUNK-OBLIGATIONS", "_iter_chunks on a modelled stream: reads of chunk_size, every chunk yielded in order, seek first iff an offset is given", ic, not problems,
               "; ".join(sorted(problems)[:4]), examined=n, construct=f"{CONTENT}:_iter_chunks::scenarios")
+    # the stream already stands at the number given as offset: relative to the start (whence 0) a seek would change nothing,
+    # relative to the end or the current position (whence 2 / 1) it still must happen
+    problems = set()
+    n = 0
+    for whence in (0, 1, 2):
+        dom = effects.EffectDomain(ctx.classes, oracle=_stream_oracle((B1,), position=("const", 3)), log_cap=12)
+        dom.oracle_state = True
+        res = effects.run(ctx, dom, ic, None, {params[0]: STREAM, params[1]: SIZE, params[2]: ("const", 3), params[3]: ("const", whence)}, state=State(), depth=2)
+        n += len(res)
+        for r in res:
+            seeks = [e[1] for e in r.state.get("ev.calls", ()) if e[0] == "stream.seek"]
+            if seeks != [(("const", 3), ("const", whence))] and not (whence == 0 and not seeks):
+                problems.add(f"with the stream at position 3, seek_offset=3 and seek_whence={whence} the seeks performed are {seeks}: the bytes read do not start at the requested offset")
+    ctx.check("R-CHUNK-OBLIGATIONS", "_iter_chunks seeks for every seek origin, wherever the stream currently stands", ic, n > 0 and not problems, "; ".join(sorted(problems)), examined=n,
+              construct=f"{CONTENT}:_iter_chunks::seek-origin")
 
 
 CHUNKS = (B1, ("const", b"x"), EMPTY_B, B2)
